@@ -461,8 +461,12 @@ def run(ctx):
         big = max(sized, key=lambda x: x[1])
         hz = [
             ("aba-buffer-reuse-overflow", "hist tj ; C 1 5 -10 ; F ; A 100 1 ; C 1 6 300"),
+            # same size class as the freed 4096-byte result: the sanitizer allocator recycles the address too
+            ("aba-buffer-reuse-overflow", "hist tj ; C 1 5 -10 ; F ; A 4000 1 ; C 1 6 " + " ".join(["500"] * 8) + " 60"),
             ("aba-buffer-reuse-overflow", "hist tjx ; J 1 %d %s ; F ; A 64 1 ; J 1 %d %s" % (small[1], spec_str(small[0]), small[1], spec_str(small[0]))),
         ]
+        if big[1] > 4000 and small[1] < 4096:
+            hz.append(("aba-buffer-reuse-overflow", "hist tjx ; J 1 %d %s ; F ; A 4000 1 ; J 1 %d %s" % (small[1], spec_str(small[0]), big[1], spec_str(big[0]))))
         for sig, l in hz:
             ml = model_lines(ctx, drv, [l])
             predicted = bool(ml and re.search(r"ok=0 cb=0 hz=[1-9]", ml[0]) and re.search(r"bad=[1-9]", ml[0]))
